@@ -525,9 +525,11 @@ func (w *Writer) enter() bool {
 	w.mutex.Lock()
 	defer w.mutex.Unlock()
 	if w.closed {
+		verifTrace("w.enter", w, false)
 		return false
 	}
 	w.group.Add(1)
+	verifTrace("w.enter", w, true)
 	return true
 }
 
@@ -559,6 +561,7 @@ func (w *Writer) Close() error {
 	// writer's mutex to ensure that no more increments of the wait group are
 	// performed afterwards (which could otherwise race with the Wait below).
 	w.closed = true
+	verifTrace("w.close.begin", w)
 
 	// close all writers to trigger any pending batches
 	for _, writer := range w.writers {
@@ -569,6 +572,7 @@ func (w *Writer) Close() error {
 		delete(w.writers, partition)
 	}
 
+	verifTrace("w.close.unlock", w)
 	w.mutex.Unlock()
 	w.group.Wait()
 
@@ -703,6 +707,7 @@ func (w *Writer) batchMessages(messages []Message, assignments map[topicPartitio
 
 	w.mutex.Lock()
 	defer w.mutex.Unlock()
+	verifTrace("w.bm.begin", w)
 
 	if w.writers == nil {
 		w.writers = map[topicPartition]*partitionWriter{}
@@ -721,6 +726,7 @@ func (w *Writer) batchMessages(messages []Message, assignments map[topicPartitio
 		}
 	}
 
+	verifTrace("w.bm.end", w)
 	return batches
 }
 
@@ -1004,6 +1010,7 @@ func newPartitionWriter(w *Writer, key topicPartition) *partitionWriter {
 		queue: newBatchQueue(10),
 		w:     w,
 	}
+	verifTrace("pw.new", w, writer, key.topic, int(key.partition))
 	w.spawn(writer.writeBatches)
 	return writer
 }
@@ -1016,9 +1023,11 @@ func (ptw *partitionWriter) writeBatches() {
 		// and empty. If the queue is closed that means
 		// the Writer is closed so once we're here it's time to exit.
 		if batch == nil {
+			verifTrace("pw.exit", ptw.w, ptw)
 			return
 		}
 
+		verifTrace("pw.get", ptw.w, ptw, batch)
 		ptw.writeBatch(batch)
 	}
 }
@@ -1026,6 +1035,7 @@ func (ptw *partitionWriter) writeBatches() {
 func (ptw *partitionWriter) writeMessages(msgs []Message, indexes []int32) map[*writeBatch][]int32 {
 	ptw.mutex.Lock()
 	defer ptw.mutex.Unlock()
+	verifTrace("pw.write.begin", ptw.w, ptw)
 
 	batchSize := ptw.w.batchSize()
 	batchBytes := ptw.w.batchBytes()
@@ -1041,15 +1051,19 @@ func (ptw *partitionWriter) writeMessages(msgs []Message, indexes []int32) map[*
 		if batch == nil {
 			batch = ptw.newWriteBatch()
 			ptw.currBatch = batch
+			verifTrace("pw.batch", ptw.w, ptw, batch)
 		}
 		if !batch.add(msgs[i], batchSize, batchBytes) {
+			verifTrace("pw.put", ptw.w, ptw, batch, "overflow")
 			batch.trigger()
 			ptw.queue.Put(batch)
 			ptw.currBatch = nil
 			goto assignMessage
 		}
+		verifTrace("pw.add", ptw.w, ptw, batch, int(i))
 
 		if batch.full(batchSize, batchBytes) {
+			verifTrace("pw.put", ptw.w, ptw, batch, "full")
 			batch.trigger()
 			ptw.queue.Put(batch)
 			ptw.currBatch = nil
@@ -1059,6 +1073,7 @@ func (ptw *partitionWriter) writeMessages(msgs []Message, indexes []int32) map[*
 			batches[batch] = append(batches[batch], i)
 		}
 	}
+	verifTrace("pw.write.end", ptw.w, ptw)
 	return batches
 }
 
@@ -1076,6 +1091,7 @@ func (ptw *partitionWriter) awaitBatch(batch *writeBatch) {
 	select {
 	case <-batch.timer.C:
 		ptw.mutex.Lock()
+		verifTrace("pw.timer", ptw.w, ptw, batch, ptw.currBatch == batch)
 		// detach the batch from the writer if we're still attached
 		// and queue for writing.
 		// Only the current batch can expire, all previous batches were already written to the queue.
@@ -1092,6 +1108,7 @@ func (ptw *partitionWriter) awaitBatch(batch *writeBatch) {
 		// The batch became full, it was removed from the ptwriter and its
 		// ready channel was closed. We need to close the timer to avoid
 		// having it leak until it expires.
+		verifTrace("pw.ready", ptw.w, ptw, batch)
 		batch.timer.Stop()
 	}
 	stats := ptw.w.stats()
@@ -1181,12 +1198,14 @@ func (ptw *partitionWriter) writeBatch(batch *writeBatch) {
 		ptw.w.Completion(batch.msgs, err)
 	}
 
+	verifTrace("pw.done", ptw.w, ptw, batch, err)
 	batch.complete(err)
 }
 
 func (ptw *partitionWriter) close() {
 	ptw.mutex.Lock()
 	defer ptw.mutex.Unlock()
+	verifTrace("pw.close", ptw.w, ptw, ptw.currBatch)
 
 	if ptw.currBatch != nil {
 		batch := ptw.currBatch
